@@ -22,6 +22,19 @@ import (
 type c11 struct {
 	lhs, rhs []int
 	st       *Stats
+	// after `hold`: the calls get the SAME two backing arrays every time (wl, wr) instead of fresh clones, and
+	// `revl` / `rotl k` permute the left one in place between calls — a function that remembers something about
+	// "the slice it saw last" (keyed by address and length) is then asked about changed contents
+	held   bool
+	wl, wr []int
+}
+
+// args returns the slices handed to the library: fresh clones, or the held working copies.
+func (r *c11) args() (lhs, rhs []int) {
+	if r.held {
+		return r.wl, r.wr
+	}
+	return slices.Clone(r.lhs), slices.Clone(r.rhs)
 }
 
 func c11csv(t string) []int {
@@ -90,8 +103,10 @@ func c11cmp(mode string) func(a, b int) int {
 // editObs runs LCS and EditScript on (lhs, rhs) and prints everything observable: the LCS, the script edit by
 // edit with op byte, X, Y and where X / Y start inside lhs / rhs (pointer identity).
 func (r *c11) editObs(lhs, rhs []int) string {
-	lcs := slice.LCS(lhs, rhs)
+	// EditScript FIRST: whatever an earlier call on the same (held) arrays may have left behind is still in place
+	// when it runs; the LCS call is only there to report the optimum next to the script
 	es := slice.EditScript(lhs, rhs)
+	lcs := slice.LCS(lhs, rhs)
 	var sb strings.Builder
 	fmt.Fprintf(&sb, "lcs=%s n=%d script=", fmtInts(lcs), len(es))
 	if len(es) == 0 {
@@ -141,6 +156,7 @@ func (r *c11) Exec(op []string) string {
 	switch op[0] {
 	case "reset":
 		r.lhs, r.rhs = nil, nil
+		r.held, r.wl, r.wr = false, nil, nil
 		if len(op) >= 2 {
 			r.lhs = c11csv(op[1])
 		}
@@ -158,8 +174,31 @@ func (r *c11) Exec(op []string) string {
 		r.lhs = append(r.lhs, r.ints(op[1:])...)
 		return fmt.Sprintf("n=%d", len(r.lhs))
 
+	case "hold":
+		r.held, r.wl, r.wr = true, slices.Clone(r.lhs), slices.Clone(r.rhs)
+		r.st.Note("held-backing-arrays")
+		return "ok"
+	case "revl":
+		slices.Reverse(r.lhs)
+		if r.held {
+			slices.Reverse(r.wl)
+			r.st.Note("held-left-permuted-in-place")
+		}
+		return fmt.Sprintf("l=%d", len(r.lhs))
+	case "rotl":
+		k := atoi(op[1])
+		if n := len(r.lhs); n > 0 {
+			k %= n
+			slice.Rotate(r.lhs, k)
+			if r.held {
+				slice.Rotate(r.wl, k)
+				r.st.Note("held-left-permuted-in-place")
+			}
+		}
+		return fmt.Sprintf("l=%d", len(r.lhs))
+
 	case "edit":
-		lhs, rhs := slices.Clone(r.lhs), slices.Clone(r.rhs)
+		lhs, rhs := r.args()
 		out := r.editObs(lhs, rhs)
 		if !slices.Equal(lhs, r.lhs) || !slices.Equal(rhs, r.rhs) {
 			out += " INPUT-MODIFIED"
@@ -198,7 +237,7 @@ func (r *c11) Exec(op []string) string {
 		return fmt.Sprintf("res=%s nil=%s mod=%s", fmtInts(res), fmtBool(res == nil), fmtBool(mod))
 
 	case "lcs", "lcsf":
-		lhs, rhs := slices.Clone(r.lhs), slices.Clone(r.rhs)
+		lhs, rhs := r.args()
 		var res []int
 		if op[0] == "lcs" || atoi(op[1]) == 0 {
 			res = slice.LCS(lhs, rhs)
@@ -226,7 +265,7 @@ func (r *c11) Exec(op []string) string {
 		return fmt.Sprintf("res=%s nil=%s mod=%s", fmtInts(res), fmtBool(res == nil), fmtBool(mod))
 
 	case "lis", "lnds":
-		vs := slices.Clone(r.lhs)
+		vs, _ := r.args()
 		mode := op[1]
 		if mode == "revhalf" {
 			r.st.Note(op[0] + "-revhalf")
@@ -368,6 +407,34 @@ func genC11Pairs(calls ...string) func(g *G) {
 			{"0,1,2,3,4,5", "3,4,5,0,1,2"}, {"3,1,5", "0,4,2,6"}, {"7,7,7", "1,4"}} {
 			g.Case(append([]string{"reset " + p[0] + " " + p[1]}, calls...))
 		}
+		// HELD backing arrays: the same two slices for several calls, the left one permuted in place in between
+		for c := 0; c < g.Scale(30, 300); c++ {
+			n := 2 + g.Intn(8)
+			l, r := make([]int, n), make([]int, 1+g.Intn(8))
+			for i := range l {
+				l[i] = g.Intn(4)
+			}
+			for i := range r {
+				r[i] = g.Intn(4)
+			}
+			if g.Chance(1, 2) { // right = the reversed left: reversing the left makes them equal
+				r = slices.Clone(l)
+				slices.Reverse(r)
+			}
+			ops := []string{"reset " + c11fmtCsv(l) + " " + c11fmtCsv(r), "hold"}
+			for step := 0; step < 2+g.Intn(3); step++ {
+				if len(calls) == 1 && calls[0] == "edit" && g.Chance(2, 3) {
+					ops = append(ops, "lcs") // stream C11: an LCS call on the same arrays before the EditScript call
+				}
+				ops = append(ops, calls...)
+				if g.Chance(1, 2) {
+					ops = append(ops, fmt.Sprintf("rotl %d", 1+g.Intn(n)))
+				} else {
+					ops = append(ops, "revl")
+				}
+			}
+			g.Case(append(ops, calls...))
+		}
 		// exhaustive: every pair over 3 symbols, lengths ≤ 5 (6 thorough: 1.19 M pairs),
 		// divided among the generator shards of one check run
 		maxLen := g.Scale(5, 6)
@@ -437,6 +504,31 @@ func genC12Lis(g *G) {
 			continue
 		}
 		g.Case(append([]string{"reset " + c11fmtCsv(w)}, calls...))
+	}
+	// HELD backing array (round-6 seeds): the same slice is handed to several calls and permuted in place between
+	// them — sorted, then rotated/reversed, so that what was true of "this slice" at the previous call is false now
+	for c := 0; c < g.Scale(40, 400); c++ {
+		n := 2 + g.Intn(12)
+		vals := make([]int, n)
+		cur := g.Intn(3)
+		for i := range vals {
+			vals[i] = cur
+			cur += g.Intn(3) // non-decreasing, with ties
+		}
+		if g.Chance(1, 4) {
+			g.R.Shuffle(n, func(a, b int) { vals[a], vals[b] = vals[b], vals[a] })
+		}
+		ops := []string{"reset", c11line("v", vals), "hold"}
+		for step := 0; step < 2+g.Intn(4); step++ {
+			ops = append(ops, g.Pick("lnds nat", "lis nat", "lnds rev", "lis rev", "lis diff", "lnds half"), g.Pick("lis nat", "lnds nat"))
+			if g.Chance(1, 2) {
+				ops = append(ops, fmt.Sprintf("rotl %d", 1+g.Intn(n)))
+			} else {
+				ops = append(ops, "revl")
+			}
+		}
+		ops = append(ops, "lis nat", "lnds nat", "lis rev")
+		g.Case(ops)
 	}
 	all := slices.Clone(calls)
 	// random: heavy ties
